@@ -425,6 +425,14 @@ func (g *progGen) eachStmt(depth int) *tw.Stmt {
 		arr = rapid.SampledFrom([]*tw.Expr{intLit(5), tw.Str("abc"), tw.Nil(), tw.Obj([]string{"k"}, []*tw.Expr{intLit(1)}), tw.Bool(true), floatLit(1.5)}).Draw(g.rt, "nonArr")
 		ek = refint.KInt
 	}
+	if arr.Kind == tw.EArr && len(arr.Kids) >= 2 && rapid.IntRange(0, 11).Draw(g.rt, "mixedArray") == 0 {
+		// a later element of another type: binding the loop variable to it re-types a name that is
+		// visible outside the loop (an error), or only the variable of the earlier pass (not settled)
+		at := rapid.IntRange(1, len(arr.Kids)-1).Draw(g.rt, "mixedAt")
+		other := rapid.SampledFrom([]*tw.Expr{tw.Str("other"), intLit(7), tw.Bool(true), floatLit(2.5), tw.Nil(), tw.Arr(intLit(1))}).Draw(g.rt, "mixedElem")
+		arr.Kids[at] = other
+		g.Feat["each-mixed-array"]++
+	}
 	if old, vis := g.visibleKind(name); vis {
 		g.Feat["loopvar-shadows"]++
 		if old != ek {
